@@ -431,4 +431,61 @@ def c08(tier, seed):
     )
 
 
-PROPS = {"C08": c08, "C07": c07, "C09": c09, "C15": c15, "C16": c16, "C17": c17, "C14": c14, "C12": c12, "C01": c01, "C02": c02, "C03": c03, "C04": c04, "C11": c11}
+def c05(tier, seed):
+    import configs
+    import envelope
+    from scenarios import cat, mr, caitems, cacat, scenario
+    n = 14 if tier == "quick" else 120
+    y = dict(yvals=(0, 1, 3), ymeasures=("mean", "sum", "stddev", "median"), valid_counts=True)
+    base = [
+        scenario("cat_x_cat", [cat("A", 4, miss=[2], vals=[1, 9, 3, 2]), cat("B", 4, miss=[4], vals=[2, None, 1, 5])],
+                 population=100),
+        scenario("cat_x_mr", [cat("A", 4, miss=[3]), mr("B", 3)], population=50),
+        scenario("mr_x_cat", [mr("A", 3), cat("B", 4, miss=[1], vals=[7, 1, 2, 3])]),
+        scenario("mr_x_mr", [mr("A", 2), mr("B", 3)]),
+        scenario("catdate_x_cat", [cat("A", 3, date=True), cat("B", 3)], population=10),
+        scenario("casub_x_cacat", [caitems("A", 3), cacat("A", 3, vals=[1, 2, 3])]),
+        scenario("cat_1d", [cat("A", 4, miss=[2], vals=[3, 1, 1, 2])], population=9),
+        scenario("mr_1d", [mr("A", 3)]),
+        scenario("cat_x_cat_y", [cat("A", 3), cat("B", 3, miss=[2])], **y),
+        scenario("cat_x_cat_x_cat", [cat("T", 2), cat("A", 3), cat("B", 3)]),
+        scenario("cat_x_cat.sq", [cat("A", 3), cat("B", 3)], squared_weights=True),
+    ]
+    scns = []
+    for i, s in enumerate(base):
+        s = dict(s)
+        ri, ci = envelope.slice_dim_indexes(s["dims"])
+        rd = s["dims"][ri]
+        cd = s["dims"][ci] if ci is not None else None
+        s["configs"] = (configs.order_configs(rd, cd, n, seed * 59 + i, with_prune=True)
+                        + configs.sort_configs(rd, cd, n // 2, seed * 61 + i, has_y=bool(s["yvals"])))
+        configs.assign_label_ranks(s)
+        scns.append(s)
+    jobs = _value_jobs("C05", "c07", scns, tier, seed,
+                       bfs_budget=260 if tier == "quick" else 12000,
+                       sim_budget=450 if tier == "quick" else 8000)
+    if tier == "quick":
+        # quick tier: the exhaustive part covers the empty survey only (one state per
+        # configuration); the bags come from simulation
+        jobs = [j for j in jobs if j["mode"] == "sim"] + [
+            make_job(dict(s, max_resp=0), "c07", ("relation", "replay"), mode="bfs",
+                     prop_id="C05") for s in scns]
+    for j in jobs:
+        j["replayer"] = ("relation", "replay")
+    return dict(
+        jobs=jobs,
+        rule="seeded display-transform configurations (explicit / payload / sort-by-value "
+             "orders, fixed lists, hide and prune flags on rows and columns at once, with "
+             "insertions) x TLC-enumerated bags (empty rows / columns occur); for every state the "
+             "library is evaluated with and without the display transforms on the spec's payload, "
+             "EVERY public array / scalar property found by reflection is recorded, and TLC "
+             "validates each recorded pair against the re-index relation (TraceRelation.tla); "
+             "non-trivial = the order changed or elements were removed",
+        assumptions=ASSUME_COMMON + ["value identity is token identity of the float repr: the "
+                                     "library computes blocks before ordering, so a re-indexed "
+                                     "output is bit-identical"],
+        feature_floor=("order_changed", "elements_removed"),
+    )
+
+
+PROPS = {"C05": c05, "C08": c08, "C07": c07, "C09": c09, "C15": c15, "C16": c16, "C17": c17, "C14": c14, "C12": c12, "C01": c01, "C02": c02, "C03": c03, "C04": c04, "C11": c11}
